@@ -10,6 +10,7 @@ import (
 	"fmt"
 	"strconv"
 	"strings"
+	"sync"
 
 	"github.com/atlassian/gostatsd"
 	"github.com/atlassian/gostatsd/pkg/verifhooks"
@@ -175,6 +176,34 @@ func Buffer(line []byte, capacity int) []byte {
 	return b
 }
 
+// One long-lived lexer is reused for every line of a run (as DatagramParser reuses its lexer), so that
+// state leaking from one line into the next is visible; the metrics it hands out go back to its pool.
+var (
+	sharedMu  sync.Mutex
+	sharedLex = verifhooks.NewLineLexer()
+)
+
+func lexShared(buf []byte, ns string) (m *gostatsd.Metric, e *gostatsd.Event, err error) {
+	sharedMu.Lock()
+	defer sharedMu.Unlock()
+	defer func() {
+		if p := recover(); p != nil {
+			sharedLex = verifhooks.NewLineLexer() // its state is undefined after a panic
+			panic(p)
+		}
+	}()
+	m, e, err = sharedLex.Lex(buf, ns)
+	if m != nil {
+		// hand a copy to the caller and return the pooled object, so that later lines get recycled metrics
+		c := *m
+		c.Tags = m.Tags.Copy()
+		c.DoneFunc = nil
+		m.Done()
+		m = &c
+	}
+	return m, e, err
+}
+
 // Lex runs the real lexer on a private copy of line and renders the result; a panic is reported as
 // "PANIC" (the message goes to msg).
 func Lex(ns string, capacity int, line []byte) (out string, msg string) {
@@ -184,7 +213,7 @@ func Lex(ns string, capacity int, line []byte) (out string, msg string) {
 		}
 	}()
 	buf := Buffer(line, capacity)
-	m, e, err := verifhooks.LexLine(buf, ns)
+	m, e, err := lexShared(buf, ns)
 	switch {
 	case err != nil:
 		return "R " + ErrName(err), ""
@@ -229,7 +258,7 @@ type Raw struct {
 
 // LexRaw runs the real lexer on buf (which it may rewrite) and returns the objects themselves.
 func LexRaw(ns string, buf []byte) (Raw, error) {
-	m, e, err := verifhooks.LexLine(buf, ns)
+	m, e, err := lexShared(buf, ns)
 	if err != nil {
 		return Raw{Err: "R " + ErrName(err)}, nil
 	}
